@@ -438,8 +438,28 @@ class Library:
                 return snap(tuple(vi))
             return ix.IArr.from_fn(a.vshape, fn, quat=a.quat, cplx=a.cplx)
 
+        def np_argmax(a):
+            """Index of a maximal element: non-deterministic choice among the (concrete) positions, with the
+            contract  a[r] >= a[t] for all t  assumed on the chosen branch."""
+            if not (isinstance(a, ix.IArr) and a.ndim == 1 and isinstance(a.vshape[0], int)) or a.quat or a.cplx or a.hcell:
+                raise OutOfReach("np.argmax form")
+            n = a.vshape[0]
+            vals = [a.at(i) for i in range(n)]
+            c = cur()
+            choice = n - 1
+            for r in range(n - 1):
+                if bool(SBool(z3.Bool(c.fresh_name(f"argmax_is_{r}")))):
+                    choice = r
+                    break
+            for t in range(n):
+                if t != choice:
+                    c.assume(vals[choice] >= vals[t])
+            return choice
+
         def np_zeros_like(a, dtype=None):
             if isinstance(a, ix.IArr):
+                if a.hcell and dtype is None:
+                    return ix.zeros(a.vshape, hcell=True)
                 return ix.zeros(a.vshape, quat=a.quat if dtype is None else dtype == QUAT, cplx=a.cplx)
             if isinstance(a, RMat):
                 return RMat(NC.zero(*a.shape))
@@ -562,7 +582,7 @@ class Library:
                 return abs(a - b) <= atol + rtol * abs(b)
             raise OutOfReach("np.isclose on arrays")
 
-        return {"isclose": np_isclose, "mean": np_mean, "clip": np_clip, "block": np_block, "array": np_array, "roll": np_roll, "zeros_like": np_zeros_like, "empty_like": np_zeros_like, "empty": np_empty,
+        return {"argmax": np_argmax, "isclose": np_isclose, "mean": np_mean, "clip": np_clip, "block": np_block, "array": np_array, "roll": np_roll, "zeros_like": np_zeros_like, "empty_like": np_zeros_like, "empty": np_empty,
                 "concatenate": np_concatenate, "real": np_real, "imag": np_imag, "any": np_any, "allclose": np_allclose}
 
     # -- FFT (axiomatised): fft2 of a real array is an uninterpreted complex function of the frequency;
@@ -607,6 +627,13 @@ class Library:
             shape = tuple(shape)
         if not isinstance(shape, tuple):
             shape = (shape,)
+        if self.mode == "idxh":
+            from . import idx as ix
+            isq = dtype == QUAT
+            if what in ("zeros", "empty"):
+                return ix.zeros(shape, hcell=isq)
+            if what == "eye":
+                return ix.eye(shape[0], shape[1], hcell=isq)
         if self.mode == "idx":
             from . import idx as ix
             isq = dtype == QUAT
@@ -631,6 +658,8 @@ class Library:
 
     # -- quaternion ----------------------------------------------------------------------------
     def _quat_table(self):
+        lib_mode = lambda: self.mode
+
         def as_float_array(a):
             if isinstance(a, QMat):
                 return F4(a.c)
@@ -657,6 +686,11 @@ class Library:
             vals = [x if not isinstance(x, float) else Fraction(repr(x)) for x in a]
             while len(vals) < 4:
                 vals.append(Fraction(0))
+            if lib_mode() == "idxh":
+                from .skew import HScal
+                if all(isinstance(v, (int, Fraction)) and v == 0 for v in vals[1:]):
+                    return HScal.real(vals[0])
+                raise OutOfReach("non-real quaternion constant in the abstract-scalar domain")
             return ix.QScal(*vals)
 
         return {"as_float_array": as_float_array, "as_quat_array": as_quat_array,
